@@ -174,7 +174,7 @@ def run_property(prop, tier, only_rule=None, quiet=False):
             ctx.info["functions"] += binfo["functions"]
         for rule in mod.RULES:
             rid = getattr(rule, "rule_id", rule.__name__)
-            if only_rule and not rid.startswith(only_rule):
+            if only_rule and not (rid.startswith(only_rule) or only_rule.startswith(rid)):
                 continue
             rule(ctx)
         if not only_rule:
